@@ -266,19 +266,35 @@ def gate_form(m):
     return res
 
 
+def gate_polarity(m, cond, n_id, mp_local):
+    """+1 if cond (a conjunction) contains `n >= min_periods` (the then-branch is gated),
+    -1 if cond is `n < min_periods`, its negated spelling, or a disjunction containing it (the
+    else-branch is gated), 0 otherwise."""
+    cond = peel(cond)
+    k = cond.get('k')
+    if k == 'Unary' and cond.get('op') == 'Not':
+        return -gate_polarity(m, cond['ch'][0], n_id, mp_local)
+    if k == 'Binary' and cond['op'] in ('And', 'BitAnd'):
+        ps = [gate_polarity(m, c, n_id, mp_local) for c in cond['ch']]
+        return 1 if 1 in ps else 0
+    if k == 'Binary' and cond['op'] in ('Or', 'BitOr'):
+        ps = [gate_polarity(m, c, n_id, mp_local) for c in cond['ch']]
+        return -1 if -1 in ps else 0
+    if k == 'Binary' and cond['op'] in ('Ge', 'Le', 'Lt', 'Gt'):
+        a, b = peel(cond['ch'][0]), peel(cond['ch'][1])
+        op = cond['op']
+        if op in ('Le', 'Gt'):
+            a, b = b, a
+            op = {'Le': 'Ge', 'Gt': 'Lt'}[op]
+        if a.get('res') == 'local' and a.get('local') == n_id and \
+                b.get('res') == 'local' and b.get('local') == mp_local:
+            return 1 if op == 'Ge' else -1
+    return 0
+
+
 def gate_preds(m, cond, n_id, mp_local):
     """True if cond (a conjunction) contains `n >= min_periods`."""
-    cond = peel(cond)
-    if cond.get('k') == 'Binary' and cond['op'] in ('And', 'BitAnd'):
-        return gate_preds(m, cond['ch'][0], n_id, mp_local) or \
-            gate_preds(m, cond['ch'][1], n_id, mp_local)
-    if cond.get('k') == 'Binary' and cond['op'] in ('Ge', 'Le'):
-        a, b = peel(cond['ch'][0]), peel(cond['ch'][1])
-        if cond['op'] == 'Le':
-            a, b = b, a
-        return a.get('res') == 'local' and a.get('local') == n_id and \
-            b.get('res') == 'local' and b.get('local') == mp_local
-    return False
+    return gate_polarity(m, cond, n_id, mp_local) == 1
 
 
 def is_null_literal(e):
@@ -315,11 +331,11 @@ def result_leaves(m, n_id, mp_local):
             return
         if k == 'If':
             c = e['ch']
-            g = gate_preds(m, c[0], n_id, mp_local)
+            g = gate_polarity(m, c[0], n_id, mp_local)
             index(c[0], gated)
-            index(c[1], gated or g)
+            index(c[1], gated or g == 1)
             if len(c) > 2:
-                index(c[2], gated)
+                index(c[2], gated or g == -1)
             return
         if k == 'Assign':
             t = peel(e['ch'][0])
@@ -352,9 +368,9 @@ def result_leaves(m, n_id, mp_local):
                 out.append((e, gated))
             return
         if k == 'If' and len(e['ch']) > 2:
-            g = gate_preds(m, e['ch'][0], n_id, mp_local)
-            leaves(e['ch'][1], gated or g, depth + 1, proj)
-            leaves(e['ch'][2], gated, depth + 1, proj)
+            g = gate_polarity(m, e['ch'][0], n_id, mp_local)
+            leaves(e['ch'][1], gated or g == 1, depth + 1, proj)
+            leaves(e['ch'][2], gated or g == -1, depth + 1, proj)
             return
         if k == 'Match':
             for a in e['arms']:
@@ -434,6 +450,9 @@ def check_gate(run, m, expect_K=None):
                 divisor = False
                 child = e
                 for p in reversed(parents):
+                    if p.get('k') == 'If' and len(p['ch']) >= 3 and p['ch'][2] is child and \
+                            gate_polarity(m, p['ch'][0], n_id, gf['local']) == -1:
+                        gated = True
                     if p.get('k') == 'If' and len(p['ch']) >= 2 and p['ch'][1] is child:
                         if gate_preds(m, p['ch'][0], n_id, gf['local']):
                             gated = True
